@@ -14,5 +14,7 @@ for d in sorted(glob.glob(os.path.join(VERIF, "seeded", "*", "meta.json"))):
     obl = ", ".join(r.get("failing_obligations", [])[:4])
     own = m["property"]
     verdict = ("**%s**: %s" % (",".join(caught), obl)) if caught else ("missed" + (" (undecided: %s)" % r["undecided"][0][:60] if r.get("undecided") else ""))
+    if r.get("note"):
+        verdict += " - " + r["note"][:160].replace("|", "/")
     print("| %s | %s | %s: %s | %s | %s | %s |" % (name, own, ", ".join(files), m.get("summary", "")[:110].replace("|", "/").replace("\n", " "),
           m.get("needs", "")[:90].replace("|", "/").replace("\n", " "), verdict, ",".join(r.get("caught_in_quick_tier", [])) or "-"))
